@@ -103,6 +103,15 @@ class MachineBase(object):
         return None
 
 
+import re as _re
+_TMPNAME = _re.compile(r"(^|/)\.?tmp[-_.]?[A-Za-z0-9_]{6,12}(?=$|/|\.)")
+
+
+def _norm_trace(t):
+    """temporary-file names chosen by the code under test (tempfile) are random: they are not part of the event log"""
+    return [_TMPNAME.sub(r"\1<tmp>", x) if isinstance(x, str) else x for x in t]
+
+
 def _where(e):
     tb = e.__traceback__
     last = None
@@ -159,7 +168,7 @@ def run_case(case, want_log=False):
         raise
     except RecursionError:
         raise
-    trace_digest = digest([list(t) for t in CTX.fs.trace])
+    trace_digest = digest([_norm_trace(t) for t in CTX.fs.trace])
     res = {
         "violation": vrec,
         "digest": digest([log, trace_digest]),
@@ -269,6 +278,8 @@ def _worker(args):
         return {"harness_error": traceback.format_exc()}
     finally:
         faulthandler.cancel_dump_traceback_later()
+        from . import simfs as _simfs
+        _simfs.cleanup()
 
 
 def run_batch(prop, tier, seed, nruns, workers=None, budget_s=None, log=print):
@@ -436,10 +447,14 @@ def _precheck_child(args):
     prop, tier, seed, n = args
     seams.install()
     out = []
-    for idx in range(n):
-        a = run_case(case_for(prop, tier, seed, idx))["digest"]
-        b = run_case(case_for(prop, tier, seed, idx))["digest"]
-        out.append((a, b))
+    try:
+        for idx in range(n):
+            a = run_case(case_for(prop, tier, seed, idx))["digest"]
+            b = run_case(case_for(prop, tier, seed, idx))["digest"]
+            out.append((a, b))
+    finally:
+        from . import simfs as _simfs
+        _simfs.cleanup()
     return out
 
 
